@@ -110,31 +110,19 @@ func ExtractAlternate(c pdf.Cursor, obj pdf.Object, _ bool) (*Alternate, error) 
 		return nil, pdf.Error("missing Image stream in alternate image dictionary")
 	}
 	if isImageMask, _ := c.Boolean(stm.Dict["ImageMask"]); isImageMask {
-		mask, err := pdf.Decode(c, imgObj, ExtractMask)
+		// alternates of alternates are not allowed per spec and are not read
+		mask, err := pdf.Decode(c, imgObj, extractMaskNoAlternates)
 		if err != nil {
 			return nil, fmt.Errorf("invalid Image: %w", err)
 		}
-		// alternates of alternates not allowed per spec; the mask is shared
-		// through the extractor's cache, so clear the entry on a copy
-		if mask.Alternates != nil {
-			clone := *mask
-			clone.Alternates = nil
-			mask = &clone
-		}
-		img = mask
+		img = mask.Mask
 	} else {
-		d, err := pdf.Decode(c, imgObj, ExtractDict)
+		// alternates of alternates are not allowed per spec and are not read
+		d, err := pdf.Decode(c, imgObj, extractDictNoAlternates)
 		if err != nil {
 			return nil, fmt.Errorf("invalid Image: %w", err)
 		}
-		// alternates of alternates not allowed per spec; the image is shared
-		// through the extractor's cache, so clear the entry on a copy
-		if d.Alternates != nil {
-			clone := *d
-			clone.Alternates = nil
-			d = &clone
-		}
-		img = d
+		img = d.Dict
 	}
 
 	alt := &Alternate{
